@@ -503,10 +503,14 @@ def concatenate_sequences(sequences, sequence_durations=None):
           'Specified sequence duration ({}) must not be less than the '
           'total_time of the sequence ({})'.format(sequence_durations[i],
                                                    sequence.total_time))
+    # MergeFrom keeps only the last total_quantized_steps.
+    total_quantized_steps = max(cat_seq.total_quantized_steps,
+                                sequence.total_quantized_steps)
     if current_total_time > 0:
       cat_seq.MergeFrom(shift_sequence_times(sequence, current_total_time))
     else:
       cat_seq.MergeFrom(sequence)
+    cat_seq.total_quantized_steps = total_quantized_steps
 
     if sequence_durations:
       current_total_time += sequence_durations[i]
@@ -546,6 +550,8 @@ def merge_sequences(sequences):
   # as its longest input.
   if sequences:
     cat_seq.total_time = max(seq.total_time for seq in sequences)
+    cat_seq.total_quantized_steps = max(
+        seq.total_quantized_steps for seq in sequences)
 
   # Delete subsequence_info because we've joined several subsequences.
   cat_seq.ClearField('subsequence_info')
